@@ -80,22 +80,24 @@ def multi_point_patrol(chk, n):
         kind = chk.rng.choice(["F2", "FL", "F3", "g1"] if proc == "NC" else (["F2", "FL"] if proc == "EM" else ["F2", "FL", "F3"]))
         hv = chk.rng.choice(["total", "light", "charm"])
         tmc = chk.rng.choice([0, 0, 1])
-        th = cards.theory_card(FNS=fns, NfFF=chk.rng.choice([3, 4]), PTO=pto, PTODIS=pto, TMC=tmc, MP=0.5, RenScaleVar=True, FactScaleVar=True)
+        # the evolution order PTO may be lower than the order of the coefficient functions PTODIS: a documented combination
+        pto_evol = pto if chk.rng.random() < 0.6 else pto - 1
+        th = cards.theory_card(FNS=fns, NfFF=chk.rng.choice([3, 4]), PTO=pto_evol, PTODIS=pto, TMC=tmc, MP=0.5, RenScaleVar=True, FactScaleVar=True)
         q2s = [2.0, 10.0, 100.0, 40000.0]
         chk.rng.shuffle(q2s)
         name = kind + "_" + hv
         ob = cards.obs_card({name: [dict(x=0.25, Q2=q) for q in q2s]}, prDIS=proc, ProjectileDIS=proj)
         cls, out, exc = outcome.classify(lambda: runs.run(th, ob))
-        k = "%s/%s/pto%d/%s" % (fns, proc, pto, {0: "ok", 1: "rejected", 2: "crash", None: "environment"}[cls])
+        k = "%s/%s/ptodis%d/pto%d/%s" % (fns, proc, pto, pto_evol, {0: "ok", 1: "rejected", 2: "crash", None: "environment"}[cls])
         dist[k] = dist.get(k, 0) + 1
         if cls == 2:
-            crashed.append(dict(theory=dict(FNS=fns, NfFF=th["NfFF"], PTO=pto, TMC=tmc), process=proc, projectile=proj, observable=name, Q2s=q2s,
+            crashed.append(dict(theory=dict(FNS=fns, NfFF=th["NfFF"], PTO=pto_evol, PTODIS=pto, TMC=tmc), process=proc, projectile=proj, observable=name, Q2s=q2s,
                                 exception="%s: %s" % (type(exc).__name__, str(exc)[:120])))
         elif cls == 0:
             for r in out[name]:
                 for kk, (v, e) in r.orders.items():
                     if not (np.all(np.isfinite(v)) and np.all(np.isfinite(e))):
-                        crashed.append(dict(theory=dict(FNS=fns, NfFF=th["NfFF"], PTO=pto, TMC=tmc), process=proc, observable=name, Q2s=q2s, exception="non-finite entries under key %s" % (kk,)))
+                        crashed.append(dict(theory=dict(FNS=fns, NfFF=th["NfFF"], PTO=pto_evol, PTODIS=pto, TMC=tmc), process=proc, observable=name, Q2s=q2s, exception="non-finite entries under key %s" % (kk,)))
                         break
     chk.patrol["multi_point_runs"] = dict(cases=n, failures=len(crashed), distribution=dist,
                                           rule="one run_yadism call with the same observable at Q2 = 2, 10, 100, 40000 (nf = 3..6 in ZM-VFNS) in random order, both scale variations on: "
@@ -181,7 +183,7 @@ def replay(path):
         return 1 if n else 0
     if "multi" in p:
         c = p["multi"]
-        th = cards.theory_card(PTODIS=c["theory"]["PTO"], MP=0.5, RenScaleVar=True, FactScaleVar=True, **c["theory"])
+        th = cards.theory_card(MP=0.5, RenScaleVar=True, FactScaleVar=True, **dict(dict(PTODIS=c["theory"]["PTO"]), **c["theory"]))
         ob = cards.obs_card({c["observable"]: [dict(x=0.25, Q2=q) for q in c["Q2s"]]}, prDIS=c["process"], ProjectileDIS=c.get("projectile", "electron"))
         cls, _o, exc = outcome.classify(lambda: runs.run(th, ob))
         print("replay:", cls, exc)
